@@ -17,4 +17,5 @@ def check(A):
         S.who_may_rules(A, fl, 'C03', parts=('flags',))
         S.upgrade_exit_state(A, fl, 'C03')
         R.api_rules(A, fl, 'C03')
+        R.response_rules(A, fl, 'C03', parts=('reap',))
     R.isolation_rules(A, 'C03')
